@@ -22,6 +22,7 @@
 -/
 import PdshVerif.Relay.TailLemmas
 import PdshVerif.Relay.LabelLemmas
+import PdshVerif.Relay.Interleave
 
 namespace PdshVerif.C06
 open PdshVerif.Relay
@@ -153,6 +154,27 @@ theorem records_carry_own_label (labels optK : Bool) (targets : List Bytes) (hos
   simp only [pfx] at h
   rw [label_correct labels optK targets host hn ht] at h
   exact h
+
+/-- `records_atomic` for many hosts and EVERY schedule (repaired tail form): `evs` is any global
+    interleaving of the streams' events.  The global sequence of stdio calls is a shuffle of the
+    per-stream sequences (`log_is_shuffle`: restricted to a stream it is that stream's own
+    sequence, in order), and for every stream `k` that receives a cutting of a stream in the
+    domain and finishes, that sequence consists of whole records of host `k.1` in order, tail
+    last.  With one stdio call = one atomic write, the output of every schedule therefore is a
+    concatenation of whole records, no byte of one host's record inside another's. -/
+theorem records_atomic_any_schedule (cfg : Cfg) (hfix : cfg.tailSplit = false) (names : Nat → Bytes)
+    {sizeMeta : Nat} (hm1 : 1 ≤ sizeMeta) (hm2 : sizeMeta ≤ 800) {b0 : PBuf}
+    (hb0 : mkFifoBuf sizeMeta = some b0) (evs : List (Key × LEv)) :
+    LogOk (evs.foldl (gstep fifoOps cfg names) (ginit b0)) ∧
+    ∀ (k : Key) (script : List Bytes),
+      (evs.filter (fun e => e.1 = k)).map (·.2) = script.map LEv.feed ++ [LEv.finish] →
+      Spec.Dom05 (markerOf (!k.2)) script.flatten = true →
+      Spec.c06Ok (pfx cfg (names k.1)) script.flatten
+        ((logOf (evs.foldl (gstep fifoOps cfg names) (ginit b0)) k).map Em.bytes) = true := by
+  refine ⟨log_is_shuffle fifoOps cfg names evs (ginit b0) (by intro k; simp [logOf, ginit]), ?_⟩
+  intro k script hk hdom
+  rw [global_stream_is_runStream fifoOps cfg names b0 evs k script hk]
+  exact records_atomic_partial cfg hfix (names k.1) (names 0) (strmNo k) (!k.2) hm1 hm2 hb0 script hdom
 
 /-! ### non-vacuity -/
 
